@@ -101,3 +101,37 @@ def lexer_rule_order(b):
             func, tok = entry
             order.append((tok, func))
     return order
+
+
+def effective_token_regex(method_name):
+    """The regular expression ply will use for token rule Lexer.<name>:
+    the `regex` attribute set by @lex.TOKEN if present, else the docstring.
+    Read by reflection (import of the repository's lexer module only)."""
+    m = load_repo_package()
+    cls = getattr(m['lexer'], 'Lexer', None)
+    if cls is None:
+        raise AnalysisError('anchor vanished: lexer.Lexer')
+    f = cls.__dict__.get(method_name)
+    if f is None:
+        raise AnalysisError('anchor vanished: Lexer.%s' % method_name)
+    f = getattr(f, '__func__', f)
+    rx = getattr(f, 'regex', None)
+    if rx is None:
+        rx = getattr(f, '__doc__', None)
+    if isinstance(f, str):
+        rx = f
+    if not rx:
+        raise AnalysisError('token rule Lexer.%s has no regular expression'
+                            % method_name)
+    return rx
+
+
+def token_rule_names():
+    m = load_repo_package()
+    cls = m['lexer'].Lexer
+    out = []
+    for k, v in cls.__dict__.items():
+        if k.startswith('t_') and k not in ('t_ignore', 't_error') and \
+                callable(getattr(v, '__func__', v)):
+            out.append(k)
+    return out
